@@ -103,7 +103,7 @@ def runCase (d : DS) : String :=
                      scripts := d.scripts, before := d.before, after := d.after }
   if d.endT ≤ d.start then "run-err:GraphExecutor end_time must be after start_time" else
   let r := HgVerif.Realtime.run cfg d.events
-  " | ".intercalate ((r.st.log.map entryS).flatten)
+  " | ".intercalate ((r.log.map entryS).flatten)
 
 def step (d : DS) (ws : List String) : DS × String :=
   match ws with
